@@ -217,7 +217,7 @@ def forall_overlap(g, P):
         else:
             c0 = num(r.choice([0, 1, 1, 2]))
             atom = E(r.choice(["le", "lt"]), r.choice([[read, c0], [c0, read]]))
-        channel = r.choice(["value", "value", "value", "cond", "cond", "both"])
+        channel = r.choice(["value", "value", "value", "value", "cond", "both"])
         if not value_ok:
             channel = "cond"
         kind = "assign"
@@ -249,7 +249,7 @@ def forall_overlap(g, P):
 
 def gen_corpus(rng, n):
     """the corpus: mostly invariant-free problems; every 6th has state invariants (the grammar's own
-    and/or one coupling two actions), every 7th undefined initial values; every 2nd gets a forall effect
+    and/or one coupling two actions), every 7th undefined initial values; every 3rd gets a forall effect
     that reads, through its quantified variable, a fluent another action writes (forall_overlap).
     Returns the problems and, per id(problem), the action names find_plans keeps in the menu."""
     out = []
@@ -267,7 +267,7 @@ def gen_corpus(rng, n):
             P = g.problem()
             if len(ground_actions(P)) >= 5 and all(a["effects"] for a in P["actions"]):
                 break
-        if i % 2 == 1:
+        if i % 3 == 1:
             h = forall_overlap(g, P)
             if h:
                 hints[id(P)] = h
@@ -671,6 +671,12 @@ def run(ctx):
             raise MachineryError("vacuous run: no judged plan with feature %s" % f)
     if res.distinct <= 2 * len(recs):
         raise MachineryError("vacuous run: the lattice exploration visited %d states for %d records" % (res.distinct, len(recs)))
+    # every read channel of the footprints (and write-write) has records on which losing that channel alone is
+    # caught by OrderKept (computed and printed by TLC: SoleWitnesses in Deorder.tla); "cond" is rare in the quick
+    # tier and "incdec" cannot be alone (the target of an increase is written too), so they are not demanded
+    for ch in ("pre", "value", "forall-cond", "forall-value", "write"):
+        if not ctx.cov["sole_channel_witnesses"].get(ch):
+            raise MachineryError("vacuous run: no record whose order depends on the channel %r alone" % ch)
 
 
 def selftest(ctx):
